@@ -200,9 +200,24 @@ Fixpoint gq_caches_ok_from (roots weights : list Q) (order ibegin fuel : nat) : 
            Nat.eqb (length (slice roots ibegin order)) order &&
            gq_caches_ok_from roots weights (S order) (ibegin + order) m
   end.
+(* the 2- and 3-point slices are the rules of C03_gq_low_order_exact up to double rounding: nodes -s, s (resp. -s, 0, s)
+   with |s^2 - 1/3| (resp. |s^2 - 3/5|) <= 2^-50, weights 1, 1 exactly (resp. 5/9, 8/9, 5/9 within 2^-50; measured: scipy is 4.4e-16 off) *)
+Definition near50 (x y : Q) : bool := Qle_bool (Qabs (x - y)) (pow2 (-50)).
+Definition gq_low_orders_ok (roots weights : list Q) (mn mx : nat) : bool :=
+  (if Nat.leb mn 2 && Nat.leb 2 mx then
+     match slice roots (ib_at mn 0 (2 - mn)) 2, slice weights (ib_at mn 0 (2 - mn)) 2 with
+     | [r1; r2], [w1; w2] => Qeq_bool r1 (- r2) && near50 (r2 * r2) (1 # 3) && Qeq_bool w1 1 && Qeq_bool w2 1
+     | _, _ => false
+     end else true) &&
+  (if Nat.leb mn 3 && Nat.leb 3 mx then
+     match slice roots (ib_at mn 0 (3 - mn)) 3, slice weights (ib_at mn 0 (3 - mn)) 3 with
+     | [r1; r2; r3], [w1; w2; w3] =>
+       Qeq_bool r1 (- r3) && Qeq_bool r2 0 && near50 (r3 * r3) (3 # 5) && near50 w1 (5 # 9) && near50 w2 (8 # 9) && near50 w3 (5 # 9)
+     | _, _ => false
+     end else true).
 Definition gq_caches_ok (roots weights : list Q) (mn mx : nat) : bool :=
   forallb (fun w => Qle_bool 0 w) weights && forallb (fun r => Qle_bool (Qabs r) 1) roots &&
-  gq_caches_ok_from roots weights mn 0 (S mx - mn).
+  gq_caches_ok_from roots weights mn 0 (S mx - mn) && gq_low_orders_ok roots weights mn mx.
 
 Definition check_brems (tol : Q) (P : Z) (C : consts) (sq ex : list (Q * Q)) (g0 g1 g2 g3 : Q)
            (roots weights : list Q) (mn mx : nat) (rtol : Q)
@@ -249,6 +264,17 @@ Definition check_gaunt (C : consts) (ryd sqrt3 : Q) (umin umax g2min g2max : Q) 
   match b with
   | GZero | GClassical | GInterp => Qeq_bool m i_val
   | GBorn => Qle_bool (Qabs (m - i_val)) (pow2 (-44) * (Qabs (ln4u) + 1))
+  end.
+(* u and gamma2 sit exactly on an interior knot of the table: the interpolated branch is taken and the value is the table
+   entry of that knot (the interpolant passes through its knots; the knots are stored as log10 of the grid, so the
+   agreement is up to the rounding of log10: 2^-30) *)
+Definition check_gaunt_knot (C : consts) (ryd : Q) (umin umax g2min g2max : Q) (z te wvl u_d g2_d table_val : Q) (i_val : Q) : bool :=
+  let u := gaunt_u (exp_factor C) te wvl in
+  let g2 := gaunt_gamma2 ryd z te in
+  relclose (pow2 (-50)) u_d u && relclose (pow2 (-50)) g2_d g2 &&
+  match gaunt_branch umin umax g2min g2max z u_d g2_d with
+  | GInterp => Qle_bool (Qabs (gaunt_value 0 1 0 table_val GInterp - i_val)) (pow2 (-30) * (Qabs table_val + 1))
+  | _ => false
   end.
 Definition gaunt_code (umin umax g2min g2max z u_d g2_d : Q) : Z :=
   match gaunt_branch umin umax g2min g2max z u_d g2_d with GZero => 0 | GClassical => 1 | GBorn => 2 | GInterp => 3 end%Z.
